@@ -245,8 +245,11 @@ class Impl:
 
         self.env = ShopifyEnvironment()
         self.env.filters["cap19"] = cap19
+        from liquid2 import StrictUndefined
+        self.strict_env = ShopifyEnvironment(undefined=StrictUndefined)   # the undefined-policy axis
+        self.strict_env.filters["cap19"] = cap19
         self.ctx = RenderContext(self.env.from_string(""))
-        self.templates: dict[str, Any] = {}
+        self.templates: dict[Any, Any] = {}
         self.plain = Environment()
         self.calls = 0
 
@@ -258,13 +261,13 @@ class Impl:
         except Exception as e:  # noqa: BLE001
             return classify_exc(e)
 
-    def render(self, src: str, data: dict[str, Any]) -> tuple:
+    def render(self, src: str, data: dict[str, Any], strict: bool = False) -> tuple:
         self.calls += 1
         self.captured.clear()
         try:
-            t = self.templates.get(src)
+            t = self.templates.get((src, strict))
             if t is None:
-                t = self.templates[src] = self.env.from_string(src)
+                t = self.templates[(src, strict)] = (self.strict_env if strict else self.env).from_string(src)
             t.render(**data)
         except Exception as e:  # noqa: BLE001
             return classify_exc(e)
@@ -1059,8 +1062,28 @@ class Laws:
     def f(self, name: str, left: Any, *args: Any) -> Any:
         return self.impl.call(name, left, *args)
 
-    def lam(self, name: str, left: Any, key: str, value: Any = None, with_value: bool = False) -> tuple:
-        return self.impl.render(lam_src(name, key, with_value), {"x": left, "v": value})
+    def lam(self, name: str, left: Any, key: str, value: Any = None, with_value: bool = False,
+            strict: bool = False) -> tuple:
+        return self.impl.render(lam_src(name, key, with_value), {"x": left, "v": value}, strict)
+
+    def policy_laws(self, name: str, left: Any, key: str, rp: dict) -> None:
+        """`f: i => i.k` never touches the undefined it gets for a missing property (every arrow-function
+        branch tests is_undefined first), so the StrictUndefined policy gives the same result as the
+        default one; and the arrow function's parameter does not outlive the filter."""
+        base = self.lam(name, left, key)
+        strict = self.lam(name, left, key, strict=True)
+        self.expect("lambda-form-same-under-StrictUndefined", same_outcome(base, strict),
+                    f"{name}: i => i.{key} differs (or fails) under Environment(undefined=StrictUndefined)", **rp,
+                    filter=name, default_policy=base, strict_policy=strict)
+        if name in ("find", "find_index", "has", "where"):
+            src = "{% assign r = x | " + name + ": item => item." + key + " %}[{{ item }}]{{ x | cap19 }}"
+            try:
+                out = self.impl.env.from_string(src).render(x=left)
+            except Exception as e:  # noqa: BLE001
+                out = f"raises {type(e).__name__}"
+            self.expect("lambda-parameter-does-not-leak", out == "[]",
+                        f"after {name}: item => item.{key} the parameter `item` is still bound", **rp,
+                        filter=name, rendered=out)
 
     def guarded(self, fn: Callable[..., None], *args: Any) -> None:
         try:
@@ -1221,6 +1244,9 @@ class Laws:
                     self.expect(f"{name}-key-equals-lambda", lf[0] == "ok" and same(canon(kf[1]), lf[1]),
                                 f"{name}: '{key}'{', v' if wv else ''} differs from the lambda form", **rp,
                                 key_form=kf[1], lambda_form=lf)
+            for name in ("where", "reject", "find", "find_index", "has", "map", "sort", "sort_natural", "sort_numeric",
+                         "uniq", "compact", "sum"):
+                self.policy_laws(name, left, key, rp)
             for name in ("map", "sort", "sort_natural", "sort_numeric", "uniq", "compact", "sum"):
                 kf = attempt(lambda: self.f(name, left, key))  # noqa: B023
                 if kf[0] != "ok":
@@ -1675,6 +1701,14 @@ def main(chk: C.Check, build: C.Build) -> None:
 
     # ---- direct oracle
     laws = Laws(impl)
+    # fixed, not sampled: every arrow-function form over hashes of which some lack the property,
+    # under the default and the StrictUndefined policy
+    fixed = [{"k": 1, "t": "b"}, {"t": "a"}, {"k": None, "t": "c"}, {}, {"k": 0, "t": "a"}, {"k": "x"}]
+    for name in ("where", "reject", "find", "find_index", "has", "map", "sort_natural", "sort_numeric", "uniq",
+                 "compact", "sum"):
+        for key in ("k", "t", "zz"):
+            laws.guarded(laws.policy_laws, name, fixed, key, {"left": fixed, "key": key})
+    laws.guarded(laws.policy_laws, "sort", [{"t": "b"}, {}, {"t": "a"}, {}], "t", {"key": "t"})
     n_law = 250 if not thorough else 2500
     for _ in range(n_law):
         left = g.array()
@@ -1792,6 +1826,14 @@ def main(chk: C.Check, build: C.Build) -> None:
             model = lam_model(name, left, key, wv, value)
             o = impl.render(lam_src(name, key, wv), {"x": run_left, "v": value})
             via = True
+            if not wv:
+                # the undefined-policy axis, not sampled: the same call under StrictUndefined
+                o_s = impl.render(lam_src(name, key, wv), {"x": run_left, "v": value}, strict=True)
+                if not (o_s[0] == "ok" and isinstance(o_s[1], float) and not math.isfinite(o_s[1])):
+                    per_filter[name + "/lambda/strict-undefined"] += 1
+                    items.append({"case": c_case(model, o_s, True), "model": model,
+                                  "replay": {"filter": name, "left": left, "lambda": f"i => i.{key}",
+                                             "undefined": "StrictUndefined", "implementation": o_s}})
             replay = {"filter": name, "left": left, "lambda": f"i => i.{key}" + (" == v" if wv else ""), "v": value,
                       "implementation": o}
             if emb:
